@@ -26,3 +26,29 @@ package ptree
 //@   at PermNode.FindChild assert searches_node_being_extended: recv == pnode && $0 == akname
 //@   at AclManager.GetAccountACL assert only_missing_children_created: childNode == nil && $0 == akname && (!rootIsAccount || (aklen >= 2 && aklist[0] == root.Name && currentIdx >= 1))
 //@   at fieldwrite.Children assert appended_to_searched_node: $0 == pnode && childNode == nil && newNode.Name == akname && newNode.Status == 1
+
+// The list a rule is evaluated over (in reverse) holds the root first and is closed
+// under children: every child of every listed node is listed - a node is never left
+// out because another node carries the same name. (That children come after their
+// parent follows from the breadth-first construction and is not stated here.)
+// listedIn(c, n, x): x is among the first n elements of c. Opaque in the function proof;
+// the two append lemmas are all it needs.
+//@ opaque spec func listedIn(c intarr, n int, x int) bool = exists q int :: 0 <= q && q < n && sel(c, q) == x
+//@ lemma listAppendKeeps: forall c intarr, n int, x int, y int :: n >= 0 && listedIn(c, n, y) ==> listedIn(upd(c, n, x), n + 1, y)
+//@   property C11
+//@   reveals listedIn
+//@ lemma listAppendAdds: forall c intarr, n int, x int :: n >= 0 ==> listedIn(upd(c, n, x), n + 1, x)
+//@   property C11
+//@   reveals listedIn
+//@ macro childListed(l, p, c) = listedIn(content(l), len(l), l[p].Children[c])
+//@ func GetPermTreeList
+//@   property C11
+//@   uses listAppendKeeps
+//@   uses listAppendAdds
+//@   ensures empty_tree: root == nil ==> len(result0) == 0 && result1 == nil
+//@   ensures root_first_and_closed_under_children: root != nil ==> result1 == nil && len(result0) >= 1 && result0[0] == root && (forall p int, c int :: 0 <= p && p < len(result0) && 0 <= c && c < len(result0[p].Children) ==> childListed(result0, p, c))
+//@   loop 1 invariant shape: 0 <= pn && pn <= len(nlist) && len(nlist) >= 1 && nlist[0] == root
+//@   loop 1 invariant closed_up_to_the_cursor: (forall p int, c int :: 0 <= p && p < pn && 0 <= c && c < len(nlist[p].Children) ==> childListed(nlist, p, c))
+//@   loop 2 invariant shape: 0 <= pn && pn < len(nlist) && len(nlist) >= 1 && nlist[0] == root && 0 <= $i && $i <= len(nlist[pn].Children) && $range == nlist[pn].Children
+//@   loop 2 invariant closed_up_to_the_cursor: (forall p int, c int :: 0 <= p && p < pn && 0 <= c && c < len(nlist[p].Children) ==> childListed(nlist, p, c))
+//@   loop 2 invariant children_so_far: (forall c int :: 0 <= c && c < $i ==> childListed(nlist, pn, c))
